@@ -30,7 +30,43 @@ const (
 	fSrc2        // the secondary source (Flatten's outer stream) fails instead of handing out its P-th item
 	fCb          // the callback of stage Stage fails when it is invoked with item value P
 	fBlock       // goroutine-backed only: sources never end (block until their context is done)
+	// fCtxCtor: the context given at construction (parallel.MapStream) is already over:
+	// P == 0 cancelled, P == 1 deadline in the past.
+	fCtxCtor
+	// fCtxCall: the context the consumer passes to Next is already over from its P-th Next call on
+	// (reducers: the context of the reducer call itself); Stage == 0 cancelled, 1 deadline in the past.
+	fCtxCall
 )
+
+var deadCancelled, deadExpired = func() (context.Context, context.Context) {
+	a, ca := context.WithCancel(context.Background())
+	ca()
+	b, cb := context.WithDeadline(context.Background(), time.Now().Add(-time.Hour))
+	cb() // already expired: Err() stays DeadlineExceeded
+	return a, b
+}()
+
+func deadCtx(kind int) context.Context {
+	if kind == 1 {
+		return deadExpired
+	}
+	return deadCancelled
+}
+
+// ctorCtx is the context handed to owners that take one at construction.
+func ctorCtx(f fault) context.Context {
+	if f.Kind == fCtxCtor {
+		return deadCtx(f.P)
+	}
+	return context.Background()
+}
+
+func ctxWord(kind int) string {
+	if kind == 1 {
+		return "expired"
+	}
+	return "cancelled"
+}
 
 type fault struct {
 	Kind  fkind
@@ -48,6 +84,10 @@ func (f fault) String() string {
 		return fmt.Sprintf("callback-error@item%d(stage%d)", f.P, f.Stage)
 	case fBlock:
 		return "sources-block-at-end"
+	case fCtxCtor:
+		return "construction-ctx-already-" + ctxWord(f.P)
+	case fCtxCall:
+		return fmt.Sprintf("consumer-ctx-already-%s-from-call%d", ctxWord(f.Stage), f.P)
 	}
 	return "none"
 }
@@ -68,6 +108,10 @@ func (f fault) class(n int) string {
 		return "callback"
 	case fBlock:
 		return "block-at-end"
+	case fCtxCtor:
+		return "ctx-at-construction"
+	case fCtxCall:
+		return "ctx-at-call"
 	}
 	return "none"
 }
@@ -159,8 +203,8 @@ func addProbe[T any](s *scen, name string, items []T, fatalAt int, block bool, o
 	if fatalAt >= 0 {
 		p.FatalAt, p.Fatal = fatalAt, errSrc
 	}
+	p.HonourCtx = true
 	if s.conc {
-		p.HonourCtx = true
 		p.BlockAtEnd = block
 		tab := s.delays(len(items) + 1)
 		p.Delay = func(i int) time.Duration {
@@ -411,20 +455,28 @@ type outcome struct {
 
 // drive plays the consumer: pull until `stop` outputs (items when byItems) have been received,
 // or until End / an error when stop < 0; then Close exactly once. Reducers are simply called.
-func drive(s *scen, b built, ctx context.Context, stop int, byItems bool, pert *vkit.Perturber) outcome {
+// From its deadFrom-th Next call on (deadFrom >= 0) the consumer passes the already finished context
+// dead instead of ctx.
+func drive(s *scen, b built, ctx context.Context, dead context.Context, deadFrom int, stop int, byItems bool, pert *vkit.Perturber) outcome {
 	var o outcome
 	var last error
 	o.Panic = vkit.Try(func() {
 		if b.reduce != nil {
 			pert.Do()
 			o.CloseCall = s.clock.Tick()
+			if deadFrom >= 0 {
+				ctx = dead
+			}
 			last = b.reduce(ctx)
 			o.CloseRet = s.clock.Tick()
 			return
 		}
 		count := 0
-		for stop < 0 || count < stop {
+		for call := 0; stop < 0 || count < stop; call++ {
 			pert.Do()
+			if deadFrom >= 0 && call >= deadFrom {
+				ctx = dead
+			}
 			w, err := b.next(ctx)
 			if err != nil {
 				last = err
